@@ -83,7 +83,7 @@ impl Rp {
         ms.iter().map(|&m| self.real(m).map(|c| c.id().clone())).collect()
     }
 
-    /// SeededInit of MC_Repo: 1 <- 2 <- 3 <- 4 (empty, undescribed, w1), b1 at 3
+    /// SeededInit of MC_Repo: 1 <- 2 <- 3 <- 4 (empty, undescribed, w1), b1 at 3, hidden 5 on 3
     fn seed(&mut self) {
         let repo0 = self.ops[0].clone();
         let mut tx = repo0.start_transaction();
@@ -94,6 +94,16 @@ impl Rp {
             prev = c.id().clone();
             self.chg.insert(m as i64 - 1, c.change_id().clone());
             self.do_bind(m, c);
+        }
+        // commit 5: created on 3 and abandoned in the same (seeding) operation: indexed but hidden
+        {
+            let p3 = self.bind[&3].id().clone();
+            let tree = self.w.tree_on(tx.repo(), std::slice::from_ref(&p3), false);
+            let c = tx.repo_mut().new_commit(vec![p3], tree).set_description("d3").write().block_on().unwrap();
+            self.chg.insert(4, c.change_id().clone());
+            tx.repo_mut().record_abandoned_commit(&c);
+            tx.repo_mut().rebase_descendants().block_on().unwrap();
+            self.do_bind(5, c);
         }
         let t = jj_lib::op_store::RefTarget::normal(self.bind[&3].id().clone());
         tx.repo_mut().set_local_bookmark_target(RefName::new(BOOKMARKS[0]), t);
